@@ -231,3 +231,24 @@ func vNondetAddr(name string) string {
 	}
 	return vAddrTable[i]
 }
+
+// vSortSlice stands in for sort.Slice under the symbolic engine (vOverride("sort.Slice", vSortSlice)): sort.Slice swaps
+// through reflection, which the engine does not interpret. An in-place insertion sort driven by the caller's less.
+func vSortSlice(x interface{}, less func(i, j int) bool) {
+	switch s := x.(type) {
+	case []string:
+		for i := 1; i < len(s); i++ {
+			for j := i; j > 0 && less(j, j-1); j-- {
+				s[j], s[j-1] = s[j-1], s[j]
+			}
+		}
+	case []uint64:
+		for i := 1; i < len(s); i++ {
+			for j := i; j > 0 && less(j, j-1); j-- {
+				s[j], s[j-1] = s[j-1], s[j]
+			}
+		}
+	default:
+		panic("vSortSlice: unsupported slice type")
+	}
+}
